@@ -1424,6 +1424,8 @@ class Interp:
         if isinstance(b, Ref):
             o = self.deref(b)
             if isinstance(o, AObj):
+                if o.label == "ExitStack" and attr in ("callback", "push", "enter_context", "close", "pop_all", "__enter__", "__exit__"):
+                    return BoundBuiltin(b, attr)
                 if attr in o.fields:
                     return o.fields[attr]
                 f = o.cls.lookup(attr)
@@ -2297,6 +2299,38 @@ class Interp:
             else:
                 self.exec_block(s.orelse, fr)
 
+    def exit_stack_class(self):
+        ci = getattr(self, "_exit_stack_ci", None)
+        if ci is None:
+            ci = self._exit_stack_ci = ClassInfo("ExitStack", "contextlib", ast.parse("class ExitStack: pass").body[0], [])
+        return ci
+
+    def exit_stack_method(self, ref, name, args, kwargs, node):
+        o = self.deref(ref)
+        if name == "callback" and args:
+            kw = {k: v for k, v in kwargs.items() if k != "**"}
+            self.deref(o.fields["callbacks"]).items.append(Tup((args[0], Tup(tuple(args[1:])), Tup(tuple(Tup((Const(k), v)) for k, v in kw.items())))))
+            return args[0]
+        if name == "close":
+            self.exit_stack_unwind(ref, node)
+            return NONE
+        if name == "__enter__":
+            return ref
+        if name == "__exit__":
+            self.exit_stack_unwind(ref, node)
+            return FALSE
+        raise AnalysisError(f"contextlib.ExitStack.{name} is not modelled (line {getattr(node, 'lineno', '?')})")
+
+    def exit_stack_unwind(self, ref, node):
+        """Run the callbacks of a contextlib.ExitStack in reverse registration order (also when the block raised)."""
+        o = self.deref(ref)
+        cbs = o.fields.get("callbacks")
+        items = list(self.deref(cbs).items) if isinstance(cbs, Ref) else []
+        self.deref(cbs).items[:] = []
+        for cb in reversed(items):
+            fn, a, kw = cb.items
+            self.call(fn, list(a.items), {k.v: v for k, v in (p.items for p in kw.items)}, node)
+
     def handler_matches(self, h, chain, fr):
         if h.type is None:
             return True
@@ -2374,6 +2408,14 @@ class Interp:
                     if not (names & chain):
                         raise
                     self.emit("CATCH", s, exc=e.exc.cls)
+                return
+            if isinstance(cm, Ref) and isinstance(self.deref(cm), AObj) and self.deref(cm).label == "ExitStack":
+                if item.optional_vars is not None:
+                    self.assign(item.optional_vars, cm, fr, s)
+                try:
+                    run(i + 1)
+                finally:
+                    self.exit_stack_unwind(cm, s)
                 return
             if isinstance(cm, PartialV) and cm.kind == "nullcontext":
                 if item.optional_vars is not None:
